@@ -78,6 +78,13 @@ class WalCtx:
             if ctx.cfg.get('fault_kind') == 'oserror' and ctx.cfg.get('fault') is not None and n == ctx.cfg['fault']:
                 ctx.faults.append({'n': n, 'op': name, **info})
                 w.rec('io-fault', n=n, op=name, **info)
+                exc = ctx.cfg.get('fault_exc', 'OSError')
+                if exc == 'ValueError':
+                    raise ValueError('I/O operation on closed file (injected)')
+                if exc == 'RuntimeError':
+                    raise RuntimeError('cannot schedule new futures after shutdown (injected)')
+                if exc == 'UnicodeEncodeError':
+                    raise UnicodeEncodeError('utf-8', 'x', 0, 1, 'surrogates not allowed (injected)')
                 raise OSError(28, 'No space left on device (injected)')
             w.rec('io', n=n, op=name, **info)
             return func(*args)
